@@ -91,9 +91,37 @@ def gen_cases(rng, tier):
         for b in sample:
             if a is not b:
                 yield {'kind': 'pair', 'label': a[0] + ' -> ' + b[0], 'first': (a[1], a[2]), 'fdata': b[1], 'names': b[2]}
+    # scripts that share NAMES in different roles: a name used as method selector / handler / variable in the first script
+    # is used as a symbol literal, a variable, a property in the second one
+    for i in range(40 if tier == 'quick' else 400):
+        a = g.factory_script()
+        b = role_swapped(a, rng)
+        try:
+            fa, na = H.compile_case(a)
+            fb, nb = H.compile_case(b)
+        except S.SpecError:
+            continue
+        yield {'kind': 'pair', 'label': 'factory:%d -> role-swapped' % i, 'first': (fa, na), 'fdata': fb, 'names': nb}
+        yield {'kind': 'interleave', 'label': 'role-swapped around factory:%d' % i, 'first': (fa, na), 'fdata': fb, 'names': nb}
+        yield {'kind': 'pair', 'label': 'role-swapped -> factory:%d' % i, 'first': (fb, nb), 'fdata': fa, 'names': na}
     if tier == 'thorough':
         for label, fdata, names in srcs[:40]:
             yield {'kind': 'cli', 'label': label, 'fdata': fdata, 'names': names}
+
+def role_swapped(a, rng):
+    """a plain script that uses the names of script a (methods, instance variables, locals, symbols) as symbol literals and
+    variables"""
+    pool = []
+    H.walk_node(('tell', ('int', 0), [st for h in a['handlers'] for st in h['body']]), True, lambda n: pool.append(n) if n not in pool else None)
+    pool += [h['name'] for h in a['handlers']] + a.get('props', [])
+    pool = [n for n in dict.fromkeys(pool) if n.isidentifier() and n not in ('me', 'return', 'put')] or ['x1']
+    body = []
+    for n in pool[:12]:
+        body.append(('call', 'put', [('sym', n)]))
+    body.append(('set', ('loc', 'v'), ('list', [('sym', n) for n in pool[:6]])))
+    body.append(('call', 'return', [('sym', pool[0])]))
+    h = {'name': 'probe', 'args': [], 'locals': ['v'], 'body': body, 'method': False}
+    return H.finish_script({'props': [], 'globals': [], 'factory': None, 'scr_num': 0, 'handlers': [h]})
 
 SKEL = [sk for sk, u in H.skeleton_bodies(2, False, 2)][::37]
 
@@ -189,8 +217,25 @@ def build_lnam(names):
     total = 20 + len(body)
     return struct.pack('>iiiihh', 0, 0, total, total, 20, len(names)) + body
 
+def _interleave(c):
+    """parse the script, decompile another one completely, then generate from the tree parsed before"""
+    parse, G = _gens()
+    fresh = _fresh(c['fdata'], c['names'])
+    tree = parse(c['fdata'], c['names'])
+    try:
+        t = parse(c['first'][0], c['first'][1])
+        G['L'](t); G['J'](t)
+    except Exception:
+        pass
+    bad = []
+    for k in 'LJ':
+        out = G[k](tree)
+        if out != fresh[k]:
+            bad.append(('generated after another script was decompiled', k, H.first_diff(fresh[k], out)))
+    return fresh, bad
+
 def run_impl(c):
-    fn = {'history': _history, 'pair': _pair, 'cli': _cli}[c['kind']]
+    fn = {'history': _history, 'pair': _pair, 'cli': _cli, 'interleave': _interleave}[c['kind']]
     return call_impl(fn, c, timeout=120)
 
 def model_request(c, ir):
@@ -198,7 +243,7 @@ def model_request(c, ir):
         return None
     codec, floats = T.oracles(c['fdata'])
     names = [n.encode('utf-8') for n in c['names']]
-    if c['kind'] == 'pair':
+    if c['kind'] in ('pair', 'interleave'):
         c1, f1 = T.oracles(c['first'][0])
         return ('decompile_pair', [[bytes(c['first'][0]), [n.encode('utf-8') for n in c['first'][1]], c1, f1],
                                    [bytes(c['fdata']), names, codec, floats]])
@@ -223,6 +268,37 @@ def judge(c, ir, ms):
         k = entry[0].decode()
         txt = entry[1].decode('utf-8', 'replace')
         if txt != fresh[k]:
-            out.append(('model text (%s) differs from the implementation: %s' % (k, H.first_diff(fresh[k], txt)), 'correspondence', None))
+            # is it the process history?  decompile the same chunk once in a pristine interpreter
+            pr = pristine(c['fdata'], c['names'])
+            if pr is not None and pr.get(k) is not None and pr[k] != fresh[k]:
+                out.append(('the %s text of this script in this process differs from its text in a fresh process (it depends on the '
+                            'scripts decompiled earlier): %s' % ('Lingo' if k == 'L' else 'JavaScript', H.first_diff(pr[k], fresh[k])),
+                            'property', None))
+            else:
+                out.append(('model text (%s) differs from the implementation: %s' % (k, H.first_diff(fresh[k], txt)), 'correspondence', None))
             break
     return out
+
+_PRISTINE = r'''
+import sys, json, logging
+logging.disable(logging.CRITICAL)
+from drxtract.lingosrc.parse.lscr import parse_lrcr_file_data
+from drxtract.lingosrc.codegen.lingo import generate_lingo_code
+from drxtract.lingosrc.codegen.js import generate_js_code
+j = json.load(sys.stdin)
+d = bytes.fromhex(j['fdata'])
+out = {}
+for k, g in (('L', generate_lingo_code), ('J', generate_js_code)):
+    try:
+        out[k] = g(parse_lrcr_file_data(d, j['names']))
+    except Exception as e:
+        out[k] = None
+json.dump(out, sys.stdout)
+'''
+def pristine(fdata, names):
+    try:
+        p = subprocess.run([sys.executable, '-c', _PRISTINE], input=json.dumps({'fdata': fdata.hex(), 'names': list(names)}).encode(),
+                           stdout=subprocess.PIPE, stderr=subprocess.DEVNULL, timeout=120, env=dict(os.environ, PYTHONPATH=REPO))
+        return json.loads(p.stdout.decode())
+    except Exception:
+        return None
